@@ -195,11 +195,13 @@ pub fn c03_compare(t: &mut Tctx, shape: &Shape, shape_text: &str, sfp: u64, clas
     if !input.is_empty() {
         t.st.nontrivial(fp_mix(sfp, fp(input)));
     }
+    t.crumb.set(&format!("kind: dyn\nshape: {}\ninput: {}", shape_text, hex(input)));
     let real = catch(|| {
         with_shape(shape, || {
             postcard::take_from_bytes::<DynVal>(input).map(|(v, rem)| (v.0, rem.as_ptr() as usize, rem.len()))
         })
     });
+    t.crumb.clear();
     let real = match real {
         Ok(r) => r,
         Err(p) => {
@@ -596,7 +598,10 @@ where
             };
             t.st.nontrivial(fp_mix(sfp, fp(&input)));
             let rp = vec![kv("kind", "corpus"), kv("type", name), kv("input", hex(&input))];
-            let real = match corpus_decode::<T>(&input) {
+            t.crumb.set(&format!("kind: corpus\ntype: {}\ninput: {}", name, hex(&input)));
+            let real_r = corpus_decode::<T>(&input);
+            t.crumb.clear();
+            let real = match real_r {
                 Ok(r) => r,
                 Err(p) => {
                     t.st.violation("C03:decoder-panic", format!("{}: panic {} on {}", name, p, hexs(&input)), rp);
@@ -947,13 +952,24 @@ impl GuardScratch {
     }
 }
 
+thread_local! {
+    /// (type name, input) of a concrete-type replay; when set, c04_concrete runs only that input
+    static REPLAY_CONCRETE: std::cell::RefCell<Option<(String, Vec<u8>)>> = const { std::cell::RefCell::new(None) };
+}
+
 fn c04_concrete<T>(t: &mut Tctx, gb: &mut GuardBuf, name: &str, elem_size: usize, judge_alloc: bool)
 where
     T: Serialize + for<'de> Deserialize<'de> + HasShape,
 {
     let shape = T::shape();
     let sfp = fp(name.as_bytes());
-    let rounds = t.cfg.scale(1, 30, 400);
+    let replay_one = REPLAY_CONCRETE.with(|r| r.borrow().clone());
+    if let Some((rname, _)) = &replay_one {
+        if rname.replace(' ', "") != name.replace(' ', "") {
+            return;
+        }
+    }
+    let rounds = if replay_one.is_some() { 1 } else { t.cfg.scale(1, 30, 400) };
     for _ in 0..rounds {
         if t.cfg.expired() {
             break;
@@ -969,6 +985,9 @@ where
             let mut m = varint_bytes(l as u128);
             m.extend_from_slice(&t.rng.bytes(t.rng.clone().range(0, 16)));
             inputs.push(("hostile_len", m));
+        }
+        if let Some((_, one)) = &replay_one {
+            inputs = vec![("replay", one.clone())];
         }
         for (class, input) in inputs {
             if input.len() > gb.usable() || t.cfg.expired() {
@@ -1062,13 +1081,21 @@ struct WithIgnored {
     b: serde::de::IgnoredAny,
 }
 
+thread_local! {
+    static REPLAY_UNSERVABLE: std::cell::RefCell<Option<Vec<u8>>> = const { std::cell::RefCell::new(None) };
+}
+
 fn c04_unservable(t: &mut Tctx) {
-    let n = t.cfg.scale(20, 4000, 100_000);
+    let fixed = REPLAY_UNSERVABLE.with(|r| r.borrow().clone());
+    let n = if fixed.is_some() { 1 } else { t.cfg.scale(20, 4000, 100_000) };
     for _ in 0..n {
         if t.cfg.expired() {
             break;
         }
-        let input = t.rng.bytes(t.rng.clone().range(0, 12));
+        let input = match &fixed {
+            Some(f) => f.clone(),
+            None => t.rng.bytes(t.rng.clone().range(0, 12)),
+        };
         t.st.eval();
         t.st.count("unservable_requests");
         let rp = vec![kv("kind", "unservable"), kv("input", hex(&input))];
@@ -1294,13 +1321,22 @@ pub fn run_c04(cfg: &Cfg) -> Report {
         }
     });
     rep.stats.merge(s);
-    let s = parallel(cfg, 2, |t| {
+    let s = parallel(cfg, 2, |t| c04_concrete_all(t, false));
+    rep.stats.merge(s);
+    let s = parallel(cfg, 3, |t| c04_unservable(t));
+    rep.stats.merge(s);
+    finish_c04(&mut rep);
+    rep
+}
+
+fn c04_concrete_all(t: &mut Tctx, all_on_this_thread: bool) {
+    {
         let mut gb = GuardBuf::new(16);
         let mut i = 0u64;
         macro_rules! conc {
             ($ty:ty, $elem:expr, $judge:expr) => {
                 i += 1;
-                if t.mine(i) || t.cfg.tier == Tier::Thorough {
+                if all_on_this_thread || t.mine(i) || t.cfg.tier == Tier::Thorough {
                     c04_concrete::<$ty>(t, &mut gb, stringify!($ty), $elem, $judge);
                     t.st.count("concrete_types_run");
                 }
@@ -1335,11 +1371,11 @@ pub fn run_c04(cfg: &Cfg) -> Report {
         conc!(crate::corpus::E129, 8, true);
         conc!(Option<Vec<u16>>, 2, true);
         conc!(Result<Vec<u8>, String>, 1, true);
-    });
-    rep.stats.merge(s);
-    let s = parallel(cfg, 3, |t| c04_unservable(t));
-    rep.stats.merge(s);
-    rep.rule = "cases = (target, hostile input): for random shapes and 26 concrete types (Vec<u8/u64/String/..>, String, Box<[u8]>, heapless, maps, Vec<()>, derived \
+    }
+}
+
+fn finish_c04(rep: &mut Report) {
+    rep.rule = "cases = (target, hostile input): for random shapes and 29 concrete types (Vec<u8/u64/String/..>, String, Box<[u8]>, heapless, maps, Vec<()>, derived \
                 structs/enums) the valid encoding, strict prefixes, byte substitutions, bit flips, varint re-paddings, hostile length prefixes (2^k, 2^k+-1, \
                 usize::MAX, isize::MAX, remaining+-1), random bytes; each decoded twice, flush against a PROT_NONE page on either side, under catch_unwind with \
                 a thread-local counting allocator; plus unservable requests (any / identifier / ignored / untagged / internally tagged). Non-trivial = non-empty input."
@@ -1358,7 +1394,6 @@ pub fn run_c04(cfg: &Cfg) -> Report {
     rep.floor("unservable_requests", 10);
     rep.floor("decode_ok", 10);
     rep.floor("decode_err", 10);
-    rep
 }
 
 // ------------------------------------------------------------------ replay
@@ -1392,6 +1427,15 @@ fn replay(cfg: &Cfg, which: &str, p: &std::path::Path) -> Stats {
                 let judge = !shape.has_map() && !shape.has_zero_width_collection();
                 c04_dyn_case(t, &mut gb, &shape, &text, 0, "replay", &input, judge);
             }
+        } else if kind == "concrete" && which == "C04" {
+            let name = m.get("type").cloned().unwrap_or_default();
+            REPLAY_CONCRETE.with(|r| *r.borrow_mut() = Some((name, input.clone())));
+            c04_concrete_all(t, true);
+            REPLAY_CONCRETE.with(|r| *r.borrow_mut() = None);
+        } else if kind == "unservable" && which == "C04" {
+            REPLAY_UNSERVABLE.with(|r| *r.borrow_mut() = Some(input.clone()));
+            c04_unservable(t);
+            REPLAY_UNSERVABLE.with(|r| *r.borrow_mut() = None);
         } else {
             t.st.inconclusive(format!(
                 "replay of kind '{}' is by re-running the check (the concrete case is in the replay file: type and input bytes)",
